@@ -560,6 +560,18 @@ def _describe_sites(ex, p, kids, astr, env):
             cv = ex.to_val(s, ex.read_ref(s, ev["args"][3]) if isinstance(ev["args"][3], Ref) else ev["args"][3])
             same_env = z3.eq(ev["argvals"][4], ex.to_val(s, env))
             desc.append(f"{frm.get(pv.get_id(), '?')} >= {frm.get(cv.get_id(), '?')}" + ("" if same_env else " [other env]"))
+        elif ev["name"].endswith("ConstrBuilder::add_constr_map"):
+            # a constraint whose sides were renamed one by one (which table each side gets is the subject of branch-value-scope)
+            cvv = ex.to_val(s, ex.read_ref(s, ev["args"][1]) if isinstance(ev["args"][1], Ref) else ev["args"][1])
+            mk = [c for c in p.events if c["name"].endswith("Constraint::new") and z3.eq(ex.to_val(s, c["ret"]), cvv)]
+            if len(mk) != 1:
+                desc.append("?")
+                continue
+            sides = []
+            for side in (mk[0]["argvals"][1], mk[0]["argvals"][2]):
+                m = [e_ for e_ in p.events if e_["name"].split("::")[-1] == "map_exp" and z3.eq(ex.to_val(s, e_["ret"]), side)]
+                sides.append(frm.get((m[0]["argvals"][0] if len(m) == 1 else side).get_id(), "?"))
+            desc.append(f"{sides[0]} >= {sides[1]}")
         elif ev["name"].endswith("ConstrBuilder::add_constr"):
             cvv = ex.to_val(s, ex.read_ref(s, ev["args"][1]) if isinstance(ev["args"][1], Ref) else ev["args"][1])
             same_env = z3.eq(ev["argvals"][2], ex.to_val(s, env))
@@ -941,6 +953,201 @@ def ob_fn_value_arguments(run, mir, rp, fam, prefix="fn-value"):
     run.samples.append({"obligation": ob.id, "queued_paths": n_push, "error_paths": n_err})
 
 
+def renaming_of(ex, p, s, msg, env_fields):
+    """How the two sides of the constraint labelled `msg` are renamed on path p: (parent value, parent table, child value, child table)
+    as z3 terms, for both ways of adding a constraint: ConstrBuilder::add(msg, parent, child, env) [contract: both sides are renamed with
+    env.var_mapping] and add_constr_map(Constraint::new(msg, parent.map_exp(t1, _), child.map_exp(t2, _)), _, ignore_map = true)."""
+    i_vm = env_fields.index("var_mapping")
+
+    def table_of_env(envarg):
+        v = ex.read_ref(s, envarg) if isinstance(envarg, Ref) else envarg
+        return ex.to_val(s, ex.project(s, v, ("f", i_vm), "VarMapping"))
+    out = []
+    for a in calls(p, "ConstrBuilder::add"):
+        if isinstance(a["args"][1], StrC) and a["args"][1].s == msg:
+            t = table_of_env(a["args"][4])
+            out.append((a["argvals"][2], t, a["argvals"][3], t))
+    maps = [e_ for e_ in p.events if e_["name"].split("::")[-1] == "map_exp"]
+    for c in calls(p, "Constraint::new"):
+        if not (isinstance(c["args"][0], StrC) and c["args"][0].s == msg):
+            continue
+        used = [a for a in calls(p, "ConstrBuilder::add_constr_map") if z3.eq(a["argvals"][1], ex.to_val(s, c["ret"]))]
+        if len(used) != 1 or not z3.is_true(z3.simplify(used[0]["args"][3] if z3.is_expr(used[0]["args"][3]) else z3.BoolVal(False))):
+            continue
+        sides = []
+        for side in (c["argvals"][1], c["argvals"][2]):
+            m = [e_ for e_ in maps if z3.eq(ex.to_val(s, e_["ret"]), side)]
+            if len(m) != 1:
+                sides = None
+                break
+            sides.append((m[0]["argvals"][0], m[0]["argvals"][1]))
+        if sides:
+            out.append((sides[0][0], sides[0][1], sides[1][0], sides[1][1]))
+    return out
+
+
+def branch_family(rp):
+    f = e2.Family(rp)
+    f.add("ifvalue-then-local-shadows-global", "def x := \"b\"\ndef y: Str := if True then\n    def x := 10\n    x\nelse\n    \"c\"", "reject")
+    f.add("ifvalue-else-local-shadows-global", "def x := \"b\"\ndef y: Str := if True then\n    \"c\"\nelse\n    def x := 10\n    x", "reject")
+    f.add("ifvalue-then-local-shadows-global-conforming", "def x := 5\ndef y: Str := if True then\n    def x := \"a\"\n    x\nelse\n    \"c\"", "accept")
+    f.add("ifvalue-local-without-shadowing", "def y: Str := if True then\n    def x := 10\n    x\nelse\n    \"c\"", "reject")
+    f.add("ifvalue-local-without-shadowing-conforming", "def y: Int := if True then\n    def x := 10\n    x\nelse\n    3", "accept")
+    f.add("ifvalue-plain", "def y: Int := if True then 1 else 2", "accept")
+    f.add("ifvalue-plain-wrong", "def y: Int := if True then 1 else \"s\"", "reject")
+    return f
+
+
+def ob_branch_scope(run, mir, rp, fam):
+    ob = run.ob("branch-value-scope", "E2", "gen_flow IfElse arm used as an expression: in the constraints `then branch equal to if` / `else branch equal to if` "
+                "the identifiers of the branch are renamed with the shadow table of the environment the generation of THAT branch returned (locals of "
+                "the branch), the if-expression itself with the table of the incoming environment", ["gen_flow (IfElse)", "ConstrBuilder::add / add_constr_map (contract)"])
+    fn = e2.find1(mir, file=ckern.GEN + "control_flow.rs", name="gen_flow")
+    ex = Exec(mir, max_paths=20000, inline=[ckern.ENV_SETTERS])
+    st = State()
+    mk = lambda n: Ref(ex.new_cell(st, ckern.mk_ast(n, opq(n + ".node", "Node"))[0]))
+    cond, then, el = (mk(n) for n in ("cond", "then", "el"))
+    node = ckern.mk_node("IfElse", {"cond": cond, "then": then, "el": Agg("Option", "Some", [el])})
+    ast, _ = ckern.mk_ast("ast", node)
+    astr = Ref(ex.new_cell(st, ast))
+    env, ev = ckern.sym_env(ex, st, is_expr=z3.BoolVal(True))
+    ctx, constr = ckern.refs(ex, st, "ctx", "constr")
+    ends = e2.run_kernel(run, ex, fn, [astr, env, ctx, constr], st)
+    fields = e2.rust_struct(ckern.ENV_RS, "Environment")
+    claims, n_ok, used = [], 0, set()
+    outer_t = ex.to_val(st, ev["var_mapping"])
+    for p in ends:
+        if result_kind(p) != "Ok":
+            continue
+        s = p.state
+        c = conj(p.cond)
+        n_ok += 1
+        whole = ex.to_val(s, ex.app("Expected.From::from", [astr], "Expected", s))
+        for msg, br in (("then branch equal to if", then), ("else branch equal to if", el)):
+            gens = [g for g in calls(p, "generate") if z3.eq(g["argvals"][0], ex.to_val(s, br))]
+            rn = renaming_of(ex, p, s, msg, fields)
+            if len(gens) != 1 or len(rn) != 1:
+                claims.append(z3.Not(c))
+                continue
+            benv = ex.project(s, ex.project(s, gens[0]["ret"], ("v", "Ok")), ("f", 0), "Environment")
+            want_t = ex.to_val(s, ex.project(s, benv, ("f", fields.index("var_mapping")), "VarMapping"))
+            pv, pt, cv, ct = rn[0]
+            used.add("branch-end-environment" if z3.eq(ct, want_t) else "enclosing-environment" if z3.eq(ct, outer_t) else "another-environment")
+            claims.append(z3.Implies(c, z3.And(pv == whole, pt == outer_t, ct == want_t,
+                                               cv == ex.to_val(s, ex.app("Expected.From::from", [br], "Expected", s)))))
+    if not n_ok:
+        raise Unsupported("no Ok path")
+    which = "+".join(sorted(used))
+    bf = branch_family(rp)
+
+    def replay(model):
+        r = bf.as_replay()(model)
+        if r.get("reproduced"):
+            r["failing_programs"] = r.get("all_failing_roles")
+            r["role"] = "if-branch-renamed-with:" + which
+        return r
+    e2.prove(run, ob, ex, [], conj(claims), {}, replay)
+    if ob.status == "discharged":
+        n, bad = bf.run()
+        run.validated += n
+        if bad:
+            ob.status = "pending"
+            ob.inconclusive(f"if-value family disagrees although the kernel is as specified: {bad[:2]}")
+    run.samples.append({"obligation": ob.id, "branch_renamed_with": which, "ok_paths": n_ok})
+
+
+def arm_family(rp):
+    f = e2.Family(rp)
+    f.add("armvalue-local-shadows-global", "def x := \"b\"\ndef y: Str := match 3\n    z =>\n        def x := 10\n        x", "reject")
+    f.add("armvalue-local-shadows-global-in-function", "def x := \"b\"\ndef f(a: Int) -> Str =>\n    match a\n        z =>\n            def x := 10\n            x", "reject")
+    f.add("armvalue-local-shadows-global-conforming", "def x := \"b\"\ndef y: Int := match 3\n    z =>\n        def x := 10\n        x", "accept")
+    f.add("armvalue-pattern-shadows-global-conforming", "def x := \"b\"\ndef y: Int := match 3\n    x => x", "accept")
+    f.add("armvalue-pattern-shadows-global", "def x := \"b\"\ndef y: Str := match 3\n    x => x", "reject")
+    f.add("armvalue-plain", "def y: Int := match 3\n    z => z + 1", "accept")
+    f.add("armvalue-plain-wrong", "def y: Str := match 3\n    z => z + 1", "reject")
+    return f
+
+
+def ob_arm_scope(run, mir, rp, fam):
+    ob = run.ob("arm-value-scope", "E2", "constrain_cases, one iteration from an arbitrary loop state: in the constraints of a match arm the arm's body is renamed "
+                "with the shadow table of the environment the generation of that body returned, the pattern with the table of the environment "
+                "the generation of the pattern returned (where the pattern variables live), the matched expression and the match itself with the "
+                "table of the incoming environment", ["constrain_cases (loop body)", "ConstrBuilder::add / add_constr_map (contract)"])
+    _rel, lay = ckern.node_enum()
+    fnc = e2.find1(mir, file=FLOW_RS, name="constrain_cases")
+    ex = Exec(mir, max_paths=20000, inline=[ckern.ENV_SETTERS])
+    st = State()
+    ast_, _ = ckern.mk_ast("match", opq("match.node", "Node"))
+    astr = Ref(ex.new_cell(st, ast_))
+    mexpr, _ = ckern.mk_ast("expr", opq("expr.node", "Node"))
+    mexprr = Ref(ex.new_cell(st, mexpr))
+    env, evs = ckern.sym_env(ex, st)
+    ctx, constr = ckern.refs(ex, st, "ctx", "constr")
+    cases = Ref(ex.new_cell(st, opq("cases", "Vec<AST>")))
+    ends = e2.run_kernel(run, ex, fnc, [astr, Ref(ex.new_cell(st, Agg("Option", "Some", [mexpr]))), cases, env, ctx, constr], st)
+    fields = e2.rust_struct(ckern.ENV_RS, "Environment")
+    astf = e2.rust_struct(ckern.AST_RS, "AST")
+    i_vm = fields.index("var_mapping")
+    outer_t = ex.to_val(st, evs["var_mapping"])
+    claims, n, used = [], 0, set()
+    for p in ends:
+        if p.kind != "loop_back":
+            continue
+        s = p.state
+        nx = calls(p, "Iterator::next")
+        if not nx:
+            continue
+        c = conj(p.cond)
+        case = ex.project(s, ex.project(s, nx[-1]["ret"], ("v", "Some")), ("f", 0), "&AST")
+        cnode = ex.project(s, ex.project(s, case, ("f", astf.index("node")), "Node"), ("v", "Case"))
+        ccond = ex.project(s, cnode, ("f", lay["Case"].index("cond")), "Box<AST>")
+        cbody = ex.project(s, cnode, ("f", lay["Case"].index("body")), "Box<AST>")
+        cexpr = ex.project(s, ex.project(s, ex.project(s, ccond, ("f", astf.index("node")), "Node"), ("v", "ExpressionType")), ("f", lay["ExpressionType"].index("expr")), "Box<AST>")
+        E = lambda v: ex.to_val(s, ex.app("Expected.From::from", [v], "Expected", s))
+        gen_of = lambda v: [g for g in calls(p, "generate") if z3.eq(g["argvals"][0], ex.to_val(s, v))]
+        gb, gc = gen_of(cbody), gen_of(ccond)
+        if len(gb) != 1 or len(gc) != 1:
+            claims.append(z3.Not(c))
+            continue
+        t_of = lambda g: ex.to_val(s, ex.project(s, ex.project(s, ex.project(s, g["ret"], ("v", "Ok")), ("f", 0), "Environment"), ("f", i_vm), "VarMapping"))
+        want = [(E(cbody), t_of(gb[0]), "body"), (E(cexpr), t_of(gc[0]), "pattern"), (E(astr), outer_t, "match"), (E(mexprr), outer_t, "matched-expression")]
+        rn = renaming_of(ex, p, s, "arm body", fields) + renaming_of(ex, p, s, "arm body and outer", fields)
+        if not rn:
+            claims.append(z3.Not(c))
+            continue
+        n += 1
+        cl = []
+        for pv, pt, cv, ct in rn:
+            for v, t in ((pv, pt), (cv, ct)):
+                hit = [(wt, nm) for wv, wt, nm in want if z3.eq(v, wv)]
+                if len(hit) != 1:
+                    cl.append(z3.BoolVal(False))
+                    continue
+                if hit[0][1] in ("body", "pattern"):
+                    used.add(hit[0][1] + ":" + ("own-environment" if z3.eq(t, hit[0][0]) else "enclosing-environment" if z3.eq(t, outer_t) else "another-environment"))
+                cl.append(t == hit[0][0])
+        claims.append(z3.Implies(c, conj(cl)))
+    if n < 2:
+        raise Unsupported(f"{n} arm paths")
+    which = "+".join(sorted(used))
+    af = arm_family(rp)
+
+    def replay(model):
+        r = af.as_replay()(model)
+        if r.get("reproduced"):
+            r["failing_programs"] = r.get("all_failing_roles")
+            r["role"] = "match-arm-renamed-with:" + which
+        return r
+    e2.prove(run, ob, ex, [], conj(claims), {}, replay)
+    if ob.status == "discharged":
+        k, bad = af.run()
+        run.validated += k
+        if bad:
+            ob.status = "pending"
+            ob.inconclusive(f"arm-value family disagrees although the kernel is as specified: {bad[:2]}")
+    run.samples.append({"obligation": ob.id, "renamed_with": which, "arm_paths": n})
+
+
 def scope_family(rp):
     """Programs whose function body ends in a name that is re-defined in the function's own scope."""
     f = e2.Family(rp)
@@ -1073,7 +1280,7 @@ def run(run):
                "outside: that a violation is still caught in every nesting context (branch forking in ConstrBuilder); the accepted-exactly-when direction for whole programs")
     run.trusted += ["rustc nightly MIR dump", "mirsym MIR semantics", "z3"]
     run.bounds = {"paths": "all paths of each kernel with loops cut at their headers"}
-    for f in (ob_call_parameters, ob_method_parameters, ob_fn_value_arguments, ob_access_direction, ob_shadow_mapping, ob_operator_typing, ob_flow_constraints, ob_return, ob_id_from_var, ob_fun_body, ob_fun_body_scope, ob_unify_type):
+    for f in (ob_call_parameters, ob_method_parameters, ob_fn_value_arguments, ob_access_direction, ob_shadow_mapping, ob_operator_typing, ob_flow_constraints, ob_return, ob_id_from_var, ob_fun_body, ob_fun_body_scope, ob_branch_scope, ob_arm_scope, ob_unify_type):
         try:
             f(run, mir, rp, fam)
         except Unsupported as e:
